@@ -150,10 +150,13 @@ def payloads_for(d: dict, rng: random.Random, n_random: int, pairwise: bool = Fa
     """yield (tag, payload) for one definition"""
     yield "base", build_payload(d, {})
     for i, f in enumerate(d["fields"]):
-        if f["off"] < 0 or f["len"] < 0:
-            continue
+        if f["len"] < 0 or f["kind"] in ("strlau", "strlz"):
+            continue                      # (fields without BitOffset are placed at the running offset)
         for name, c in boundary_codes(f):
             yield f"{i+1}:{name}", build_payload(d, {i: c})
+    if any(f["kind"] in ("strlau", "strlz") for f in d["fields"]):
+        for k in range(4):
+            yield f"text{k}", build_payload(d, {}, rng)
     if pairwise:
         idx = [i for i, f in enumerate(d["fields"]) if f["off"] >= 0 and f["len"] >= 0 and f["match"] == -1]
         for _ in range(min(40, len(idx) * 3)):
